@@ -27,6 +27,7 @@ type Ev struct {
 	// when evaluating a callee's contract: do not emit panic obligations
 	quiet bool
 	qvars []string // binders of enclosing spec quantifiers
+	wfSeen map[string]bool
 }
 
 func (e *Ev) g() *Gen { return e.u.g }
@@ -960,7 +961,9 @@ func (e *Ev) fieldOf(x Term, st *types.Struct, sname string, fname string, n ast
 	for i := 0; i < st.NumFields(); i++ {
 		f := st.Field(i)
 		if f.Name() == fname {
-			return Term{S: app(e.g().fieldAcc(sname, fname), x.S), Sort: e.sortOf(f.Type()), T: f.Type(), Signed: isSigned(f.Type())}
+			r := Term{S: app(e.g().fieldAcc(sname, fname), x.S), Sort: e.sortOf(f.Type()), T: f.Type(), Signed: isSigned(f.Type())}
+			e.wfSlice(r)
+			return r
 		}
 	}
 	return e.errorf(n, "no field %s", fname)
@@ -1477,4 +1480,28 @@ func (e *Ev) hardOp(op string, sort string) string {
 	name := fmt.Sprintf("go_%s%d", op, w)
 	e.g().Pre.add(fmt.Sprintf("(declare-fun %s (%s %s) %s)", name, sort, sort, sort))
 	return name
+}
+
+// wfSlice: every Go slice value is well-formed (0 <= len <= cap, offset >= 0). Assumed for slice
+// values read out of structures.
+func (e *Ev) wfSlice(t Term) {
+	if t.Sort != sSlice || e.st == nil {
+		return
+	}
+	c := fmt.Sprintf("(and (<= 0 (slen %s)) (<= (slen %s) (scap %s)) (<= 0 (soff %s)))", t.S, t.S, t.S, t.S)
+	if e.wfSeen == nil {
+		e.wfSeen = map[string]bool{}
+	}
+	key := c + "|" + strings.Join(e.qvars, ",")
+	if e.u.wfDone[key] {
+		return
+	}
+	if e.u.wfDone == nil {
+		e.u.wfDone = map[string]bool{}
+	}
+	e.u.wfDone[key] = true
+	if len(e.qvars) > 0 {
+		c = fmt.Sprintf("(forall (%s) %s)", strings.Join(e.qvars, " "), c)
+	}
+	e.define(c)
 }
